@@ -414,6 +414,8 @@ def number_to_string(number, significant_digits, number_format_notation="f"):
     if not isinstance(number, numbers) or isinstance(number, datetimes):  # type: ignore
         # dates and times count as numbers for type grouping but have no digits to round
         return number
+    elif isinstance(number, Decimal) and not number.is_finite():
+        pass  # infinities and NaNs have no digits to quantize
     elif isinstance(number, Decimal):
         with localcontext() as ctx:
             # Precision = number of integer digits + significant_digits
